@@ -254,7 +254,13 @@ const c14MaxEnt = 16
 type c14Ref struct {
 	kind string
 	cap  int
-	n    int
+	// strict: for LRU and FIFO follow the code as it is (the intrusive list
+	// order, what Get un-indexes, which blocks drop takes) instead of every
+	// behaviour the contract admits; ent[:n] is then the list from root.next
+	// to root.prev. Used by the linearizability search only: an order found
+	// under the strict reading is one the Coq model of the code accepts too.
+	strict bool
+	n      int
 	ent  [c14MaxEnt]c14Ent
 	st   [5]int // gets misses puts retains evictions (StatsRecorder)
 }
@@ -371,6 +377,9 @@ func (r *c14Ref) dropSets(d int, out []c14Ref) []c14Ref {
 // observed result, or gives a reason why the result is not allowed.
 // base/used describe the block named by a put at the time of the call.
 func (r *c14Ref) step(op []int, res []int, base int64, used bool, stats bool, out []c14Ref) ([]c14Ref, string) {
+	if r.strict && r.kind != "random" {
+		return r.stepStrict(op, res, base, used, out)
+	}
 	switch op[0] {
 	case c14Put:
 		id := op[1]
@@ -531,6 +540,118 @@ func (r *c14Ref) step(op []int, res []int, base int64, used bool, stats bool, ou
 		return append(out, *r), ""
 	}
 	return out, "unknown-op"
+}
+
+// stepStrict: LRU and FIFO as coded (cache.go): used blocks are inserted at
+// the front of the list, unused ones at the back; eviction and drop take
+// root.prev; LRU.Get always un-indexes, FIFO.Get only an unused block; FIFO.Put
+// of the block already indexed answers (nil, false).
+func (r *c14Ref) stepStrict(op []int, res []int, base int64, used bool, out []c14Ref) ([]c14Ref, string) {
+	insert := func(n *c14Ref, e c14Ent) bool {
+		if n.n >= c14MaxEnt {
+			return false
+		}
+		if e.used {
+			copy(n.ent[1:n.n+1], n.ent[:n.n])
+			n.ent[0] = e
+		} else {
+			n.ent[n.n] = e
+		}
+		n.n++
+		return true
+	}
+	dropBack := func(n *c14Ref, d int) {
+		for ; d > 0 && n.n > 0; d-- {
+			n.n--
+		}
+	}
+	switch op[0] {
+	case c14Put:
+		id := op[1]
+		if len(res) != 2 {
+			return out, "no-result"
+		}
+		ev, ret := res[0], res[1] == 1
+		n := *r
+		if i := r.find(base); i >= 0 {
+			wantEv := id
+			if r.kind == "fifo" && r.ent[i].id == id {
+				wantEv = -1
+			}
+			if ret || ev != wantEv {
+				return out, "strict:put-indexed-base"
+			}
+			return append(out, n), ""
+		}
+		if r.n == r.cap {
+			if !used {
+				if ret || ev != id {
+					return out, "strict:unused-accepted-when-full"
+				}
+				return append(out, n), ""
+			}
+			if r.n == 0 {
+				return out, "strict:empty-and-full"
+			}
+			if !ret || ev != r.ent[r.n-1].id {
+				return out, "strict:victim-not-root-prev"
+			}
+			n.n--
+			if !insert(&n, c14Ent{id, base, used}) {
+				return out, "oracle-capacity"
+			}
+			return append(out, n), ""
+		}
+		if !ret || ev != -1 {
+			return out, "strict:refused-or-evicted-with-room"
+		}
+		if !insert(&n, c14Ent{id, base, used}) {
+			return out, "oracle-capacity"
+		}
+		return append(out, n), ""
+	case c14Get:
+		if len(res) != 2 {
+			return out, "no-result"
+		}
+		i := r.find(int64(op[1]))
+		if i < 0 {
+			if res[0] != -1 {
+				return out, "strict:returned-block-not-held"
+			}
+			return append(out, *r), ""
+		}
+		if res[0] != r.ent[i].id {
+			return out, "strict:miss-or-other-block"
+		}
+		if r.kind == "fifo" && r.ent[i].used {
+			return append(out, *r), ""
+		}
+		return append(out, r.without(i)), ""
+	case c14Resize:
+		n := *r
+		if op[1] < n.n {
+			dropBack(&n, n.n-op[1])
+		}
+		n.cap = op[1]
+		return append(out, n), ""
+	case c14Drop:
+		n := *r
+		dropBack(&n, op[1])
+		return append(out, n), ""
+	case c14Peek, c14Len, c14Cap, c14Rebase:
+		// read-only: the contract reading is already deterministic
+		s := *r
+		s.strict = false
+		o2, why := s.step(op, res, base, used, false, nil)
+		if why != "" {
+			return out, why
+		}
+		for range o2 {
+			out = append(out, *r)
+		}
+		return out, ""
+	}
+	return out, "strict:unsupported-op"
 }
 
 // matches says whether the probe (len, cap, next per base) is the one state r shows.
@@ -1056,6 +1177,7 @@ type c14ConcOut struct {
 	Viol     []c14Viol `json:"viol,omitempty"`
 	Hang     bool      `json:"hang,omitempty"`
 	States   int       `json:"states"`
+	Relaxed  int       `json:"relaxed,omitempty"` // rounds explained by the contract only, not by the code as modelled
 }
 
 // c14ConcRound runs the threads once.
@@ -1132,7 +1254,7 @@ func c14ConcRound(c *c14Case, bl *c14Blocks, prog *c14Progress, evs *[]c14Ev, mu
 // c14Linearize searches for an order of the events that respects real time
 // and that the contract allows. It returns the order (indices into evs) and
 // the victims chosen at each step.
-func c14Linearize(kind string, cap int, evs []c14Ev) (order []int, chs [][]int, states int, why string) {
+func c14Linearize(kind string, cap int, evs []c14Ev, strict bool) (order []int, chs [][]int, states int, why string) {
 	n := len(evs)
 	done := make([]bool, n)
 	memo := map[string]bool{}
@@ -1195,7 +1317,7 @@ func c14Linearize(kind string, cap int, evs []c14Ev) (order []int, chs [][]int, 
 		memo[key] = true
 		return false
 	}
-	if dfs(&c14Ref{kind: kind, cap: cap}, 0) {
+	if dfs(&c14Ref{kind: kind, cap: cap, strict: strict}, 0) {
 		return ord, ch, states, ""
 	}
 	return nil, nil, states, lastWhy
@@ -1247,8 +1369,17 @@ func c14Conc(c *c14Case) interface{} {
 			}
 		}
 		ov := c14Overlaps(evs)
-		order, ch, states, why := c14Linearize(c.Kind, c.Cap, evs)
+		// first an order that the code as it is (and so the Coq model of
+		// it) explains; failing that, any order the contract admits - the
+		// Coq evaluation then reports that the model no longer describes the
+		// code, which is what such a run means.
+		order, ch, states, why := c14Linearize(c.Kind, c.Cap, evs, true)
 		out.States += states
+		if order == nil {
+			out.Relaxed++
+			order, ch, states, why = c14Linearize(c.Kind, c.Cap, evs, false)
+			out.States += states
+		}
 		if order == nil {
 			out.Events = evs
 			out.Overlaps = ov
